@@ -1,11 +1,26 @@
 (* C09 - String literals and member names decode exactly as RFC 9535 specifies.
    Specification: Spec/StringLit.v (spec_decode).  Model: Model/Lex.v string states, Model/Parse.v decode_string_literal.
 
-   Full statement (C09_decode; proof pending, see Proofs/StringProofs.v when present):
-     forall q body idx, (q = 39 \/ q = 34) -> lex_ok q body = true ->
-       decode_string_literal {| ty := tt_of q; tval := body; tidx := idx |}
-       = match spec_decode q body with Some s => Ok s | None => Err ESyntax (Some idx) end *)
+   C09_decode is the full statement for the parser's half: whatever token body the lexer's string states let
+   through (lex_ok: a backslash is followed by one of ESCAPES or the own quote, the own quote does not occur
+   unescaped), made of Unicode scalar values, _decode_string_literal returns exactly the RFC value or raises
+   JSONPathSyntaxError at the token, never IndexError. *)
 From JP Require Import Base.Json Spec.StringLit Model.Tokens Model.Parse Proofs.StringProofs.
+
+Definition tt_of (q : N) : ttype := if N.eqb q 39 then T_SQ_STRING else T_DQ_STRING.
+Theorem C09_decode : forall q body idx, (q = 39%N \/ q = 34%N) ->
+  lex_ok q body = true -> forallb is_scalar body = true ->
+  decode_string_literal {| ty := tt_of q; tval := body; tidx := idx |}
+  = match spec_decode q body with Some s => Ok s | None => Err ESyntax (Some idx) end.
+Proof. intros q body idx [-> | ->]; [exact (decode_sq body idx) | exact (decode_dq body idx)]. Qed.
+Print Assumptions C09_decode.
+
+(* hypotheses are satisfiable, and on both sides of the accept/reject line *)
+Example C09_decode_nonvacuous :
+  lex_ok 39 [92; 117; 100; 56; 51; 68; 92; 117; 68; 69; 48; 48; 34; 92; 39]%N = true
+  /\ forallb is_scalar [92; 117; 100; 56; 51; 68; 92; 117; 68; 69; 48; 48; 34; 92; 39]%N = true
+  /\ lex_ok 34 [92; 117; 68; 67; 48; 48]%N = true /\ spec_decode 34 [92; 117; 68; 67; 48; 48]%N = None.
+Proof. repeat split; vm_compute; reflexivity. Qed.
 
 (* the shift/mask expression of _decode_hex_char equals the RFC formula for every surrogate pair:
    a finite domain (1024 x 1024), checked exhaustively by vm_compute in Proofs/StringProofs.v and lifted *)
